@@ -47,7 +47,7 @@ theorem varsInv_subjInv (cfg : Cfg) (S : Name → Prop) (hown : OwnTables cfg.db
   cases a with
   | prepend v val app => cases fwd <;> exact ⟨hp.other, hp.mine⟩
   | alias k' v => cases fwd <;> exact ⟨hp.other, hp.mine⟩
-  | dep n o j v x t => exact hp
+  | dep n o j v x t kl => exact hp
   | set var val =>
     have hsv : SetVar cfg.db S var := ⟨d, hd, hS, g, val, hg⟩
     obtain ⟨rel, rfl⟩ := (hown d hd g _ hg).2 var val rfl
@@ -100,10 +100,10 @@ theorem dirClean_subjInv (cfg : Cfg) (S : Name → Prop) : SubjInv cfg (fun _ n 
 
 /-- a set of names closed under the dependency lines of every declared version -/
 def Closed (db : Db) (S : Name → Prop) : Prop :=
-  ∀ d ∈ db.decls, S d.name → ∀ g n o j v x t, (g, Act.dep n o j v x t) ∈ d.table → S n
+  ∀ d ∈ db.decls, S d.name → ∀ g n o j v x t kl, (g, Act.dep n o j v x t kl) ∈ d.table → S n
 
 theorem closed_closedAt (cfg : Cfg) (S : Name → Prop) (h : Closed cfg.db S) : ClosedAt cfg (fun _ n => S n) :=
-  fun d hd _ hS _ g n o j v x t hg => h d hd hS g n o j v x t hg
+  fun d hd _ hS _ g n o j v x t kl hg => h d hd hS g n o j v x t kl hg
 
 end EupsModel.Setup
 
@@ -153,7 +153,7 @@ theorem varsOther_subjInv (cfg : Cfg) (S : Nat → Name → Prop) (e0 : Env) :
   cases a with
   | prepend v vals app => cases fwd <;> exact hp
   | alias k' v => cases fwd <;> exact hp
-  | dep n o j v x t => exact hp
+  | dep n o j v x t kl => exact hp
   | set var val =>
     have hsv : SetVar cfg.db (fun n => ∃ k, S k n) var := ⟨d, hd, ⟨k, hS⟩, g, val, hg⟩
     intro var2 h2
